@@ -369,3 +369,59 @@ def canon_conditionals(fn: ast.FunctionDef) -> ast.FunctionDef:
 
     fn = AssignIfExp().visit(fn)
     return ast.fix_missing_locations(fn)
+
+
+# --------------------------------------------------------------------------
+# symbolic straight-line evaluation
+# --------------------------------------------------------------------------
+
+def symbolic_returns(fn: ast.FunctionDef, rewrite=None) -> tuple[list[tuple[ast.AST | None, ast.AST]], dict[str, ast.AST]]:
+    """Evaluate a straight-line function body symbolically: every local (and every re-assigned parameter) is replaced
+    by the expression it holds, so that the names chosen for intermediate values - or whether a parameter is
+    overwritten or a fresh name is introduced - do not matter.
+
+    Handles `x = e`, `if c: x = e [else: x = e']` (merged into a conditional expression), `if c: return e` (early
+    return), a final `return e` / `if c: return e  return e'`.  Returns ([(guard or None, returned expression)], env);
+    raises ValueError on anything else.  `rewrite`, when given, is applied to every right-hand side first
+    (e.g. to strip dtype conversions that are identities on the modelled values)."""
+    env: dict[str, ast.AST] = {}
+    rets: list[tuple[ast.AST | None, ast.AST]] = []
+
+    def ev(e: ast.AST) -> ast.AST:
+        e = copy.deepcopy(e)
+        if rewrite is not None:
+            e = rewrite(e)
+        return _Subst(env).visit(e)
+
+    def only_assigns(stmts) -> bool:
+        return all(isinstance(s, ast.Assign) and len(s.targets) == 1 and isinstance(s.targets[0], ast.Name) for s in stmts)
+
+    for st in fn.body:
+        if isinstance(st, ast.Expr) and isinstance(st.value, ast.Constant):
+            continue
+        if isinstance(st, ast.Assign) and len(st.targets) == 1 and isinstance(st.targets[0], ast.Name):
+            env[st.targets[0].id] = ev(st.value)
+        elif isinstance(st, ast.If) and only_assigns(st.body) and only_assigns(st.orelse):
+            test = ev(st.test)
+            names = [s.targets[0].id for s in st.body] + [s.targets[0].id for s in st.orelse]
+            then_env, else_env = dict(env), dict(env)
+            for s in st.body:
+                then_env[s.targets[0].id] = _Subst(then_env).visit(rewrite(copy.deepcopy(s.value)) if rewrite else copy.deepcopy(s.value))
+            for s in st.orelse:
+                else_env[s.targets[0].id] = _Subst(else_env).visit(rewrite(copy.deepcopy(s.value)) if rewrite else copy.deepcopy(s.value))
+            for nm in dict.fromkeys(names):
+                old = env.get(nm, ast.Name(id=nm, ctx=ast.Load()))
+                env[nm] = ast.IfExp(test=copy.deepcopy(test), body=then_env.get(nm, old), orelse=else_env.get(nm, old))
+        elif isinstance(st, ast.If) and not st.orelse and len(st.body) == 1 and isinstance(st.body[0], ast.Return):
+            rets.append((ev(st.test), ev(st.body[0].value)))
+        elif isinstance(st, ast.Return) and st.value is not None:
+            v = ev(st.value)
+            if isinstance(v, ast.IfExp):           # `return a if c else b`  ==  `if c: return a` ; `return b`
+                rets.append((v.test, v.body))
+                rets.append((None, v.orelse))
+            else:
+                rets.append((None, v))
+            break
+        else:
+            raise ValueError(f"statement `{ast.unparse(st)[:80]}`")
+    return rets, env
